@@ -17,6 +17,20 @@ def _short(name):
     return name
 
 
+def _walk(n):
+    st = [n]
+    while st:
+        x = st.pop()
+        if isinstance(x, dict):
+            yield x
+            sl = x.get('slots')
+            if sl:
+                st.extend(v for v in sl.values() if isinstance(v, dict))
+            if isinstance(x.get('init'), dict):
+                st.append(x['init'])
+            st.extend(x.get('c') or ())
+
+
 class LocalEnv:
     """single reaching pure definitions of locals of one function.
 
@@ -36,6 +50,11 @@ class LocalEnv:
         self.bind = {}      # (name) for structured bindings -> (decomp dloc, index)
         self.rename = {}    # dloc -> role name: rules name locals / parameters by *role*, found structurally, never by spelling
         self.decls = {}     # dloc -> VarDecl node
+        # alias mode (default): with subst=False a local WITHOUT a role that is a pure, never modified definition is only a name for its initialiser
+        # (hoisting a sub-expression into a const local, or inlining one, does not change any canonical form)
+        self.alias = True
+        self._ti = {}
+        self.no_alias = self._mutated_locals(fn)
         for n in fn.nodes():
             k = n.get('k')
             if k == 'VarDecl':
@@ -60,6 +79,85 @@ class LocalEnv:
                 c = n.get('c') or []
                 if len(c) > 1 and c[1].get('k') == 'DeclRefExpr':
                     self.assigned.add(c[1].get('dloc'))
+
+    @staticmethod
+    def _mutated_locals(fn):
+        """locals on which a non-const member function / mutating operator is applied, or whose address is taken: never aliases."""
+        m = set()
+
+        def root(x):
+            g = 0
+            while x is not None and g < 32:
+                g += 1
+                k = x.get('k')
+                if k == 'DeclRefExpr':
+                    return x if x.get('local') else None
+                if k == 'MemberExpr':
+                    x = (x.get('c') or [None])[0]
+                elif k == 'ArraySubscriptExpr' or (k == 'UnaryOperator' and x.get('op') == '*'):
+                    x = (x.get('c') or [None])[0]
+                elif k == 'CXXOperatorCallExpr' and x.get('op') in ('[]', '*', '->'):
+                    x = x['c'][1] if len(x.get('c') or ()) > 1 else None
+                elif k == 'CXXMemberCallExpr' and (x.get('callee_name') or '').rsplit('::', 1)[-1] in ('at', 'front', 'back', 'operator[]'):
+                    me = x['c'][0]
+                    x = (me.get('c') or [None])[0] if me.get('k') == 'MemberExpr' else None
+                else:
+                    return None
+            return None
+        ASSIGN = ('=', '+=', '-=', '*=', '/=', '%=', '|=', '&=', '^=', '<<=', '>>=')
+        members = set()
+
+        def path_members(x):
+            g = 0
+            while x is not None and g < 32:
+                g += 1
+                k = x.get('k')
+                if k == 'MemberExpr':
+                    if x.get('member'):
+                        members.add(x['member'])
+                    x = (x.get('c') or [None])[0]
+                elif k in ('ArraySubscriptExpr',) or (k == 'UnaryOperator' and x.get('op') == '*'):
+                    x = (x.get('c') or [None])[0]
+                elif k == 'CXXOperatorCallExpr' and x.get('op') in ('[]', '*', '->'):
+                    x = x['c'][1] if len(x.get('c') or ()) > 1 else None
+                elif k == 'CXXMemberCallExpr':
+                    me = x['c'][0]
+                    x = (me.get('c') or [None])[0] if me.get('k') == 'MemberExpr' else None
+                else:
+                    return
+        self_members = members
+        for n in fn.nodes():
+            k = n.get('k')
+            r = None
+            if k == 'CXXMemberCallExpr':
+                me = n['c'][0]
+                if me.get('k') == 'MemberExpr' and not (n.get('callee') or '').endswith(' const') and (n.get('callee_name') or '').startswith('std::'):
+                    path_members((me.get('c') or [None])[0])
+            elif k == 'CXXOperatorCallExpr' and n.get('op') in ASSIGN + ('++', '--'):
+                if len(n.get('c') or ()) > 1 and not (n.get('callee') or '').endswith(' const'):
+                    path_members(n['c'][1])
+            elif k in ('BinaryOperator', 'CompoundAssignOperator') and n.get('op') in ASSIGN:
+                path_members(n['c'][0])
+            elif k == 'UnaryOperator' and n.get('op') in ('++', '--'):
+                path_members((n.get('c') or [None])[0])
+            if k == 'CXXMemberCallExpr':
+                me = n['c'][0]
+                base = (me.get('c') or [None])[0] if me.get('k') == 'MemberExpr' else None
+                if base is not None and not (n.get('callee') or '').endswith(' const'):
+                    r = root(base)
+            elif k == 'CXXOperatorCallExpr' and n.get('op') in ASSIGN + ('++', '--', '[]', '<<', '>>'):
+                c = n['c']
+                if len(c) > 1 and not (n.get('callee') or '').endswith(' const'):
+                    r = root(c[1])
+            elif k in ('BinaryOperator', 'CompoundAssignOperator') and n.get('op') in ASSIGN:
+                r = root(n['c'][0])
+            elif k == 'UnaryOperator' and n.get('op') in ('&', '++', '--'):
+                r = root((n.get('c') or [None])[0])
+            if r is not None:
+                m.add(r.get('dloc'))
+        self_members = frozenset(members)
+        fn.d['_mut_members'] = self_members
+        return m
 
     # ---- roles ---------------------------------------------------------------
     def param_roles(self, roles):
@@ -106,6 +204,29 @@ class LocalEnv:
         return canon(n['init'], self, subst=subst)
 
     _CONTAINERS = ('std::map<', 'std::set<', 'std::vector<', 'std::unordered_', 'std::list<', 'std::queue<', 'std::deque<', 'std::multimap<', 'std::multiset<')
+
+    def time_invariant(self, dloc, init):
+        """may the local be replaced by its initialiser at every use?  Not when the initialiser reads state that this function modifies
+        (`cc = row[x]; row.erase(x); ... cc ...` is a snapshot, not a name)."""
+        c = self._ti.get(dloc)
+        if c is None:
+            mm = self.fn.d.get('_mut_members') or frozenset()
+            c = True
+            for x in _walk(init):
+                if x.get('k') == 'MemberExpr' and x.get('member') in mm:
+                    c = False
+                    break
+                if x.get('k') == 'DeclRefExpr' and x.get('local') and x.get('dloc') in self.no_alias:
+                    c = False
+                    break
+                if x.get('k') == 'CXXMemberCallExpr' and not (x.get('callee') or '').endswith(' const') and not (x.get('callee_name') or '').startswith('std::'):
+                    c = False       # a call that may create or change something (sat->new_var(), new_distance(..)): the local holds its RESULT
+                    break
+                if x.get('k') == 'CXXNewExpr':
+                    c = False
+                    break
+            self._ti[dloc] = c
+        return c
 
     def definition(self, ref):
         """the pure initialiser a local may be replaced by, or None: never for assigned locals, range-for loop variables
@@ -165,7 +286,7 @@ def canon(n, env=None, depth=0, subst=True):
                 and n.get('dloc') not in env.rename:
             # alias mode (clause schemas): a local WITHOUT a role that is a pure, never re-assigned definition is just a name for its initialiser
             d = env.definition(n)
-            if d is not None and n.get('dloc') not in getattr(env, 'no_alias', ()):
+            if d is not None and n.get('dloc') not in getattr(env, 'no_alias', ()) and env.time_invariant(n.get('dloc'), d):
                 return canon(d, env, depth + 1, subst)
         if n.get('refk') == 'EnumConstant':
             return n['ref'].rsplit('::', 1)[-1]
